@@ -37,6 +37,31 @@ ARITH_CALLS = re.compile(r"^core::ptr::(const_ptr|mut_ptr|non_null)::.*::(add|su
                          r"offset_from|byte_offset_from|align_offset)$|^core::ptr::(without_provenance|with_exposed_provenance|"
                          r"dangling|null)")
 ARITH_CASTS = ("PointerExposeProvenance", "PointerWithExposedProvenance")
+# unsafe constructors that turn a raw pointer into a Gc / GcWeak / GcPtr / builder: every local caller is a
+# conversion, whether or not it is in the list above (a new helper is picked up automatically)
+RAW_CONSTRUCTORS = ["gc::Gc::from_ptr", "gc::Gc::from_ptr_with_kind", "gc::Gc::from_thin_ptr_with_kind",
+                    "gc_weak::GcWeak::from_ptr", "gc_weak::GcWeak::from_ptr_with_kind", "gc_ptr::GcPtr::from_ptr",
+                    "gc::GcBuilder::from_raw"]
+# assembling a fat pointer from an address and separately supplied metadata: allowed only where the metadata is
+# the one stored with the allocation (the PtrMeta::from_thin implementors and their helper)
+META_ASSEMBLY = re.compile(r"^core::ptr::(slice_from_raw_parts(_mut)?|from_raw_parts(_mut)?|metadata::from_raw_parts(_mut)?)$|"
+                           r"^core::ptr::non_null::NonNull::(slice_from_raw_parts|from_raw_parts)$|"
+                           r"^core::slice::(raw::)?from_raw_parts(_mut)?$|^core::str::(converts::)?from_raw_parts(_mut)?$")
+
+
+def _meta_allowed(f):
+    return bool(re.search(r" as meta::PtrMeta>::from_thin$", f)) or f == "slice::SliceWithHeader::ptr_from_thin"
+
+
+def metadata_sites(prog, key):
+    out = []
+    for bb in prog.bodies[key]["blocks"]:
+        t = bb["t"]
+        if t and t["k"] == "call" and not t["f"].get("indirect") and not t.get("x"):
+            n = norm((t["f"].get("resolved") or t["f"])["def"])
+            if META_ASSEMBLY.search(n):
+                out.append((n, t["l"]))
+    return out
 
 
 def _ptr_like(prog, tid):
@@ -105,9 +130,13 @@ def arithmetic_sites(prog, key):
 def cast_only(chk, prog, rule="cast-only-conversions", config="default"):
     prog.edges()
     n = 0
-    for conv in CONVERSIONS:
+    dynamic = sorted({prog.fn_of_closure(e.caller) for rc in RAW_CONSTRUCTORS for e in prog.callers_of(rc)} - set(CONVERSIONS))
+    for conv in CONVERSIONS + dynamic:
         keys = prog.seed_n.get(conv)
-        if not chk.anchor(conv, bool(keys), "(config %s)" % config):
+        if conv in dynamic:
+            if not keys:
+                continue
+        elif not chk.anchor(conv, bool(keys), "(config %s)" % config):
             continue
         # closure over local callees (closures included), not descending into ARITH_ALLOWED
         seen = set()
@@ -121,14 +150,19 @@ def cast_only(chk, prog, rule="cast-only-conversions", config="default"):
             for k in prog.seed_n.get(f, []):
                 for (what, line) in arithmetic_sites(prog, k):
                     bad.append("%s in %s:%s" % (what, f, line))
+                if not _meta_allowed(f):
+                    for (what, line) in metadata_sites(prog, k):
+                        bad.append("fat pointer assembled from an address and separately supplied metadata (%s) in %s:%s - "
+                                   "the length / metadata of a converted pointer must be the one stored with the allocation" % (
+                                       what.split("::")[-1], f, line))
             for e in prog.calls_from(f):
                 if e.callee and e.callee in prog.seed_n and e.callee not in ARITH_ALLOWED and e.kind != "drop" \
                         and _may_return_or_write_address(prog, e.callee):
                     work.append(e.callee)
         n += 1
         chk.inst(rule, "%s[%s]" % (conv, config), not bad,
-                 detail="conversion `%s` performs address arithmetic (%s): the converted pointer no longer has the "
-                        "address of the original" % (conv, "; ".join(bad[:3])),
+                 detail="conversion `%s` does not preserve the pointer's identity (%s): the converted pointer no longer has the "
+                        "address / metadata of the original" % (conv, "; ".join(bad[:3])),
                  sample={"conversion": conv, "functions_scanned": sorted(seen)[:8]})
     chk.floor("conversions[%s]" % config, n, 20)
     # positive control: the scan must find the address computation in the reviewed helpers it does not descend
